@@ -69,31 +69,32 @@ theorem purge_changes_sub (t : Tree) (fuel : Nat) (win : Id) (t2 : Tree) (h : pu
 /-- Child lists only shrink and the queue only loses requests. -/
 def Shrinks (t t' : Tree) : Prop :=
   (∀ r ∈ t'.root.changes, r ∈ t.root.changes) ∧
-  (∀ (x : Nat) (w' : Win), t'.wins[x]? = some w' → ∃ w, t.wins[x]? = some w ∧ ∀ ch ∈ w'.children, ch ∈ w.children) ∧
+  (∀ (x : Nat) (w' : Win), t'.wins[x]? = some w' → ∃ w, t.wins[x]? = some w ∧ (∀ ch ∈ w'.children, ch ∈ w.children) ∧ w'.rect = w.rect) ∧
   (t.root.needsLater = true → t'.root.needsLater = true)
 
-theorem Shrinks.refl (t : Tree) : Shrinks t t := ⟨fun _ h => h, fun _ w h => ⟨w, h, fun _ hc => hc⟩, fun h => h⟩
+theorem Shrinks.refl (t : Tree) : Shrinks t t := ⟨fun _ h => h, fun _ w h => ⟨w, h, fun _ hc => hc, rfl⟩, fun h => h⟩
 
 theorem Shrinks.trans {a b c : Tree} (h1 : Shrinks a b) (h2 : Shrinks b c) : Shrinks a c := by
   refine ⟨fun r hr => h1.1 r (h2.1 r hr), fun x w hw => ?_, fun h => h2.2.2 (h1.2.2 h)⟩
-  obtain ⟨wb, hwb, hs⟩ := h2.2.1 x w hw
-  obtain ⟨wa, hwa, hs'⟩ := h1.2.1 x wb hwb
-  exact ⟨wa, hwa, fun ch hc => hs' ch (hs ch hc)⟩
+  obtain ⟨wb, hwb, hs, hr⟩ := h2.2.1 x w hw
+  obtain ⟨wa, hwa, hs', hr'⟩ := h1.2.1 x wb hwb
+  exact ⟨wa, hwa, fun ch hc => hs' ch (hs ch hc), hr.trans hr'⟩
 
 theorem shrinks_of_eq {t t' : Tree} (hw : t'.wins = t.wins) (hc : t'.root.changes = t.root.changes)
     (hl : t.root.needsLater = true → t'.root.needsLater = true) : Shrinks t t' :=
-  ⟨fun r hr => by rw [hc] at hr; exact hr, fun x w h => ⟨w, by rw [← hw]; exact h, fun _ hc => hc⟩, hl⟩
+  ⟨fun r hr => by rw [hc] at hr; exact hr, fun x w h => ⟨w, by rw [← hw]; exact h, fun _ hc => hc, rfl⟩, hl⟩
 
-theorem shrinks_set (t : Tree) (id : Id) (w w' : Win) (hw : t.wins[id]? = some w) (hc : ∀ ch ∈ w'.children, ch ∈ w.children) :
+theorem shrinks_set (t : Tree) (id : Id) (w w' : Win) (hw : t.wins[id]? = some w) (hc : ∀ ch ∈ w'.children, ch ∈ w.children)
+    (hr : w'.rect = w.rect) :
     Shrinks t (WinTree.set t id w') := by
   refine ⟨fun r hr => hr, fun x wx hx => ?_, fun h => h⟩
   by_cases hxi : x = id
   · subst hxi
     rw [set_wins_self t x w w' hw] at hx
     cases hx
-    exact ⟨w, hw, hc⟩
+    exact ⟨w, hw, hc, hr⟩
   · rw [set_wins_other t id x w' hxi] at hx
-    exact ⟨wx, hx, fun _ h => h⟩
+    exact ⟨wx, hx, fun _ h => h, rfl⟩
 
 theorem close_shrinks (t t' : Tree) (fuel : Nat) (id : Id) (h : WinTree.close t fuel id = .ok t') : Shrinks t t' := by
   unfold WinTree.close at h
@@ -113,7 +114,7 @@ theorem close_shrinks (t t' : Tree) (fuel : Nat) (id : Id) (h : WinTree.close t 
         rw [hgc] at hm
         simp only [pure, Pure.pure] at hm
         cases hm
-        exact shrinks_set tc id wc _ (get_ok hgc).1 (fun _ hc => hc)
+        exact shrinks_set tc id wc _ (get_ok hgc).1 (fun _ hc => hc) rfl
     cases hp : w0.parent with
     | none =>
       simp only [hp, pure, Pure.pure] at h
@@ -126,7 +127,7 @@ theorem close_shrinks (t t' : Tree) (fuel : Nat) (id : Id) (h : WinTree.close t 
         rw [hpu] at h
         simp only at h
         have hs1 : Shrinks t tq :=
-          ⟨purge_changes_sub t fuel id tq hpu, fun x w hx => ⟨w, by rw [← (purge_spec t fuel id tq hpu).1]; exact hx, fun _ hc => hc⟩,
+          ⟨purge_changes_sub t fuel id tq hpu, fun x w hx => ⟨w, by rw [← (purge_spec t fuel id tq hpu).1]; exact hx, fun _ hc => hc, rfl⟩,
             fun hx => by rw [(purge_spec t fuel id tq hpu).2.2.2.1]; exact hx⟩
         cases hd : doHierarchyChange tq fuel .remove p id with
         | ub e => rw [hd] at h; cases h
@@ -158,7 +159,7 @@ theorem close_shrinks (t t' : Tree) (fuel : Nat) (id : Id) (h : WinTree.close t 
                   exact shrinks_set tq p pw _ (get_ok hgp).1 (fun ch hc => by
                     have : ch ∈ cs := hc
                     rw [hcs] at this
-                    exact List.mem_of_mem_erase this)
+                    exact List.mem_of_mem_erase this) rfl
                 cases hga : WinTree.get ta id with
                 | ub e => rw [hga] at hd; cases hd
                 | ok wa =>
@@ -167,7 +168,7 @@ theorem close_shrinks (t t' : Tree) (fuel : Nat) (id : Id) (h : WinTree.close t 
                   generalize htb : WinTree.set ta id { wa with parent := none } = tb at hd
                   have hsb : Shrinks ta tb := by
                     rw [← htb]
-                    exact shrinks_set ta id wa _ (get_ok hga).1 (fun _ hc => hc)
+                    exact shrinks_set ta id wa _ (get_ok hga).1 (fun _ hc => hc) rfl
                   refine (hsa.trans hsb).trans ?_
                   split at hd
                   · obtain ⟨e1, e2, e3⟩ := expose_wins_root _ tb p _ td hd
@@ -176,7 +177,7 @@ theorem close_shrinks (t t' : Tree) (fuel : Nat) (id : Id) (h : WinTree.close t 
                     exact Shrinks.refl _
 
 theorem ordered_shrinks {t t' : Tree} (h : Shrinks t t') (ho : Ordered t) : Ordered t' :=
-  ordered_of_children h.2.1 ho
+  ordered_of_children (fun x w' hw' => by obtain ⟨w, a, b, _⟩ := h.2.1 x w' hw'; exact ⟨w, a, b⟩) ho
 
 /-- Every queued request is of a restacking kind. -/
 def QueueOk (t : Tree) : Prop := ∀ r ∈ t.root.changes, isRestack r.change = true
